@@ -17,7 +17,7 @@ import copy
 import inspect
 import json
 
-STREAMS = ['dispatch-random', 'dispatch-lookup-grid', 'dispatch-deferred']
+STREAMS = ['dispatch-random', 'dispatch-lookup-grid', 'dispatch-deferred', 'dispatch-builtin']
 THEOREMS = [
     'at_most_one_reply', 'exactly_one_if_expected', 'none_if_no_reply_and_dispatched',
     'reply_addressing', 'runs_iff', 'lookup_failure_reply', 'result_encoding',
@@ -158,8 +158,14 @@ def gen_resolution(rng, sig_out):
 
 
 # ----------------------------------------------------------------------------- declarations
-def gen_decls(rng, rich=False):
-    """Interfaces, classes, exported objects (JSON-able)."""
+PROP_IFACE = 'org.prop'
+BAD_PROP_VALUES = ['None', 'object', '[1, None]']     # stored values that do not marshal as a variant / as 's'
+
+
+def gen_decls(rng, rich=False, props=None):
+    """Interfaces, classes, exported objects (JSON-able).  With `props` (or at random) the base
+    class carries a DBusProperty `p` (interface org.prop, type 's'); an object's `pval` is the repr
+    of the value the application assigns to it after the export ('object' = an unmarshallable one)."""
     n_if = rng.randrange(2, 5) if not rich else 4
     ifaces = []
     for k in range(n_if):
@@ -241,6 +247,12 @@ def gen_decls(rng, rich=False):
     if rng.random() < 0.1:
         paths.append(paths[0])          # exported twice: the second export replaces the first
     objects = [{'path': p, 'cls': rng.randrange(len(classes))} for p in paths]
+    if props if props is not None else rng.random() < 0.15:
+        ifaces.append({'name': PROP_IFACE, 'methods': [], 'props': [['p', 's']]})
+        classes[0]['ifaces'] = (classes[0]['ifaces'] or []) + [len(ifaces) - 1]
+        classes[0]['props'] = ['p']
+        for o in objects:
+            o['pval'] = rng.choice(["'v'", "'other'"] + BAD_PROP_VALUES)
     # a plain mixin alone is not exportable
     for o in objects:
         while classes[o['cls']]['bases'] == ['plain']:
@@ -271,7 +283,7 @@ def declared_ifaces_of(decls, cls_idx):
     return out
 
 
-def gen_call(rng, decls, grid=None):
+def gen_call(rng, decls, builtin_bias=0.10):
     """One call spec against the declarations."""
     objs = decls['objects']
     o = rng.choice(objs)
@@ -282,13 +294,13 @@ def gen_call(rng, decls, grid=None):
         path = rng.choice(OTHER_PATHS)
     else:
         path = rng.choice(PATHS)
-    my_if = declared_ifaces_of(decls, o['cls'])
+    my_if = [j for j in declared_ifaces_of(decls, o['cls']) if decls['ifaces'][j]['methods']]
     iface = member = None
     sig_in = ''
     r = rng.random()
-    if r < 0.10:
+    if r < builtin_bias:
         iface, member = rng.choice(BUILTINS)
-        if rng.random() < 0.2:
+        if rng.random() < 0.15:
             member = rng.choice(MEMBERS)
     elif my_if and r < 0.80:
         ifc = decls['ifaces'][rng.choice(my_if)]
@@ -403,8 +415,9 @@ class Built:
         self.handler = objects.DBusObjectHandler(self.rec)
         self.ifaces = []
         for i in decls['ifaces']:
-            self.ifaces.append(interface.DBusInterface(
-                i['name'], *[interface.Method(m[0], m[1], m[2]) for m in i['methods']], noRegister=True))
+            members = [interface.Method(m[0], m[1], m[2]) for m in i['methods']]
+            members += [interface.Property(pn, ps, writeable=True) for pn, ps in i.get('props', [])]
+            self.ifaces.append(interface.DBusInterface(i['name'], *members, noRegister=True))
         self.classes = []
         for k, c in enumerate(decls['classes']):
             bases = []
@@ -420,6 +433,13 @@ class Built:
                 ns['dbusInterfaces'] = [self.ifaces[j] for j in c['ifaces']]
             for a in c['attrs']:
                 ns[a['name']] = make_func(self.rec, a['name'], a['fid'], a['deco'], a['wants'], a.get('arity'))
+            for pn in c.get('props', []):
+                ns[pn] = objects.DBusProperty(pn, PROP_IFACE)
+
+                def __init__(self, path, _pn=pn):
+                    objects.DBusObject.__init__(self, path)
+                    setattr(self, _pn, 'initial')
+                ns['__init__'] = __init__
             self.classes.append(type('K%d' % k, tuple(bases) or (object,), ns))
         self.objects = []
         self.exported = {}
@@ -428,6 +448,11 @@ class Built:
             self.handler.exportObject(obj)
             self.objects.append(obj)
             self.exported[o['path']] = obj
+            if 'pval' in o:
+                try:
+                    obj.p = parse_value(o['pval'])      # the application assigns; a bad value raises here
+                except Exception:                       # ... after it has been stored
+                    pass
         self.rec.log.clear()
 
     # -- the export lines of the model, read off the REAL classes
@@ -493,6 +518,19 @@ def enc_probe(sig_out, body):
         message.MethodReturnMessage(1, body=body, destination=':1.1', signature=sig_out)
         return None
     except Exception as e:     # noqa: the callback chain catches everything
+        return {'cls': e.__class__.__name__, 'name': getattr(e, 'dbusErrorName', None),
+                'text': failure.Failure(e).getErrorMessage()}
+
+
+def managed_probe(handler, path):
+    """Does building the GetManagedObjects reply for `path` raise?  None or the exception spec."""
+    from txdbus import message
+    from twisted.python import failure
+    try:
+        body = handler.getManagedObjects(path)
+        message.MethodReturnMessage(1, body=[body], destination=':1.1', signature='a{oa{sa{sv}}}')
+        return None
+    except Exception as e:     # noqa
         return {'cls': e.__class__.__name__, 'name': getattr(e, 'dbusErrorName', None),
                 'text': failure.Failure(e).getErrorMessage()}
 
@@ -665,6 +703,7 @@ class CallRecord:
         self.outcome = None         # outcome spec used by the invoked function
         self.resolved = None        # first resolution spec applied to its Deferred
         self.returned_deferred = False
+        self.raised = False
 
 
 class Scenario:
@@ -751,8 +790,13 @@ class Scenario:
         line = self.canon_events(cr, events, rv)
         if raised is not None:
             line += ' | RAISED ' + type(raised).__name__
-            self.problems.append(('dispatcher-raised', 'handleMethodCallMessage raised %s: the connection would be lost '
-                                  'and no reply sent' % type(raised).__name__, k, line, 'a reply'))
+            cr.raised = True
+            if op['expectReply']:      # the statement demands a reply only then
+                    self.problems.append(('dispatcher-raised-no-reply', 'handleMethodCallMessage raised %s (%s) for a call to %s.%s '
+                                  'on %s: no reply is sent although the call expects one, and the exception escapes into '
+                                  'dataReceived (the connection is dropped)'
+                                  % (type(raised).__name__, raised, op['iface'], op['member'], op['path']), k, line,
+                                  'exactly one reply'))
         self.impl_lines.append(line)
         self.check_after_call(cr)
         # model line
@@ -776,7 +820,10 @@ class Scenario:
         else:
             otoks = ['D']
         names.append('org.txdbus.PythonException.NotImplementedError')
-        return ' '.join(toks + names_tokens(names) + otoks)
+        menc = None
+        if (op['iface'], op['member']) == MANAGED and op['path'] in self.built.handler.exports:
+            menc = managed_probe(self.built.handler, op['path'])
+        return ' '.join(toks + names_tokens(names) + enc_tokens(menc) + otoks)
 
     def sig_out_for_model(self, op):
         """sigOut of the method the REAL lookup finds (only used to evaluate the model's `encErr`
@@ -912,6 +959,8 @@ class Scenario:
             if replies:
                 self.problem('reply-before-deferred-fired', 'a reply was sent although the returned Deferred has not fired', cr)
             return
+        if len(replies) == 0 and getattr(cr, 'raised', False):
+            return          # reported as dispatcher-raised-no-reply
         if len(replies) == 0:
             oc = cr.outcome
             if dispatched and oc['kind'] in ('raise', 'failed') and bad_text_key(oc['exc']):
@@ -1041,7 +1090,7 @@ def dbus_error_name_ok(n):
 
 
 # ----------------------------------------------------------------------------- scenario generation
-def gen_history(rng, decls, n_ops, deferred_bias=0.0, hostile=False):
+def gen_history(rng, decls, n_ops, deferred_bias=0.0, hostile=False, builtin_bias=0.10):
     ops = []
     pending = []     # (op index, sig_out guess) of calls that may have returned an unfired Deferred
     probe = Built(decls)
@@ -1056,7 +1105,7 @@ def gen_history(rng, decls, n_ops, deferred_bias=0.0, hostile=False):
         if ops and rng.random() < 0.04:
             ops.append({'op': 'resolve', 'k': rng.randrange(0, k + 2), 'res': gen_resolution(rng, rng.choice(SIGS))})
             continue
-        op = gen_call(rng, decls)
+        op = gen_call(rng, decls, builtin_bias)
         exp = expected_of(probe, op)
         so = exp.get('sig_out', rng.choice(SIGS))
         op['outcome'] = gen_outcome(rng, so, hostile=hostile)
@@ -1068,9 +1117,9 @@ def gen_history(rng, decls, n_ops, deferred_bias=0.0, hostile=False):
     return ops
 
 
-def gen_scenario(rng, n_ops=6, deferred_bias=0.0, hostile=False, rich=False):
-    decls = gen_decls(rng, rich)
-    return {'decls': decls, 'ops': gen_history(rng, decls, n_ops, deferred_bias, hostile)}
+def gen_scenario(rng, n_ops=6, deferred_bias=0.0, hostile=False, rich=False, props=None, builtin_bias=0.10):
+    decls = gen_decls(rng, rich, props)
+    return {'decls': decls, 'ops': gen_history(rng, decls, n_ops, deferred_bias, hostile, builtin_bias)}
 
 
 GRID_DECLS = {
@@ -1225,7 +1274,7 @@ def run(ctx):
         run_batch(ctx, data.get('stream', 'dispatch-random'), [spec], with_model=not data.get('oracle_only', False))
         ctx.stat('corpus')
     # random scenarios
-    n = ctx.scale(quick=1500, thorough=20000)
+    n = ctx.scale(quick=1000, thorough=12000)
     run_batch(ctx, 'dispatch-random', [gen_scenario(rng, n_ops=rng.randrange(3, 9)) for _ in range(n)])
     # lookup grid (complete in the thorough tier)
     limit = None if (ctx.tier == 'thorough' or ctx.widen) else 1500
@@ -1233,11 +1282,16 @@ def run(ctx):
     run_batch(ctx, 'dispatch-lookup-grid', specs)
     ctx.stat('grid-combinations', ncomb)
     # Deferred-heavy histories
-    n = ctx.scale(quick=500, thorough=8000)
+    n = ctx.scale(quick=350, thorough=5000)
     run_batch(ctx, 'dispatch-deferred',
               [gen_scenario(rng, n_ops=rng.randrange(4, 14), deferred_bias=0.35) for _ in range(n)])
-    # oracle only: exception texts with lone surrogates (not representable as Lean `Char`)
+    # calls the handler answers itself, on trees whose objects carry a property (some with a stored
+    # value that cannot be marshalled)
     n = ctx.scale(quick=150, thorough=2000)
+    run_batch(ctx, 'dispatch-builtin',
+              [gen_scenario(rng, n_ops=rng.randrange(3, 8), props=True, builtin_bias=0.7) for _ in range(n)])
+    # oracle only: exception texts with lone surrogates (not representable as Lean `Char`)
+    n = ctx.scale(quick=150, thorough=1200)
     run_batch(ctx, 'oracle-hostile-text', [gen_scenario(rng, n_ops=4, hostile=True) for _ in range(n)],
               with_model=False)
 
